@@ -47,6 +47,10 @@ build/%.asan_avx2: harness/%.cpp $(HDRS)
 	@mkdir -p build
 	$(CLANGXX) $(COMMON) $(SAN) -march=native -DQENTEM_AVX2=1 -DVERIF_ASAN=1 $< -o $@
 
+build/%.asan_noesc: harness/%.cpp $(HDRS)
+	@mkdir -p build
+	$(CLANGXX) $(COMMON) $(SAN) -march=native -DQENTEM_SSE2=1 -DQENTEM_AUTO_ESCAPE_HTML=0 -DVERIF_ASAN=1 $< -o $@
+
 build/%.tsan: harness/%.cpp $(HDRS)
 	@mkdir -p build
 	$(CLANGXX) $(COMMON) -fsanitize=thread -g -O1 -march=native -DQENTEM_SSE2=1 -DVERIF_TSAN=1 $< -o $@ -lpthread
